@@ -30,7 +30,7 @@ DeepKey(ty, pattern) == ty \o "/" \o pattern
 DeepTrack(ty, pattern) ==
   IF DeepKey(ty, pattern) \in DOMAIN deep THEN deep[DeepKey(ty, pattern)] ELSE [maxok |-> 0, minrej |-> -1]
 
-CallEvents == {"Size", "Encode", "Decode", "Deep", "Reject", "Legacy", "Allocs", "Par", "Walk", "Recheck", "Hooks", "Reg"}
+CallEvents == {"Size", "Encode", "Decode", "Deep", "Reject", "Legacy", "Allocs", "Par", "Walk", "Recheck", "Hooks", "Reg", "Gated"}
 
 \* rejected calls seen so far in the whole trace: (type, entry, argument kind) -> outcome
 RejKey == Line.ty \o "/" \o Line.entry \o "/" \o Line.arg
@@ -42,7 +42,7 @@ RejKey == Line.ty \o "/" \o Line.entry \o "/" \o Line.arg
 CrashClause(ev) ==
   CASE ev = "Size" -> "size_ok" [] ev = "Encode" -> "enc_ok" [] ev = "Decode" -> "dec_nocrash"
     [] ev = "Deep" -> "deep_nocrash" [] ev = "Reject" -> "rej_nofault" [] ev = "Legacy" -> "legacy_ok"
-    [] ev = "Allocs" -> "alloc_ok" [] ev = "Par" -> (IF Line.obs.out = "race" THEN "par_norace" ELSE "par_nocrash")
+    [] ev = "Allocs" -> "alloc_ok" [] ev \in {"Par", "Gated"} -> (IF Line.obs.out = "race" THEN "par_norace" ELSE "par_nocrash")
     [] OTHER -> "mem_crash"       \* walking / re-reading a kept decoded object killed the process
 
 Judge ==
@@ -64,6 +64,7 @@ Judge ==
     [] Line.ev = "Deep" -> JDeep(Line, DeepTrack(Line.ty, Line.pattern))
     [] Line.ev = "Hooks" -> JHooks(Line, spans)
     [] Line.ev = "Reg" -> JReg(Line, regst)
+    [] Line.ev = "Gated" -> JGated(Line, regst)
     [] Line.ev = "Walk" -> JWalk(Line, objin)
     [] Line.ev = "Recheck" -> JRecheck(Line)
     [] Line.ev = "Par" -> JPar(Line)
@@ -137,7 +138,7 @@ TraceCall ==
      /\ IF v = {} THEN ndev' = ndev ELSE Report(v) /\ ndev' = ndev + 1
      /\ Count(j.cls)
      /\ IF Line.ev = "Legacy" THEN LegacyCall(Line.call)
-        ELSE IF Line.ev \in {"Par", "Walk", "Recheck", "Hooks", "Reg"} THEN UNCHANGED apiVars
+        ELSE IF Line.ev \in {"Par", "Walk", "Recheck", "Hooks", "Reg", "Gated"} THEN UNCHANGED apiVars
         ELSE Call(Line.ty)
   /\ l' = l + 1
   /\ UNCHANGED cur
